@@ -357,6 +357,17 @@ func (b *Built) build2(n *Node) (s sdf.SDF2, err error) {
 		s, err = sdf.ANSIButtressThread(P[0], P[1])
 	case "plasticbuttress":
 		s, err = sdf.PlasticButtressThread(P[0], P[1])
+	case "bezier":
+		// V alternates on-curve points and quadratic mid (control) points of a closed curve
+		bz := sdf.NewBezier()
+		for i, v := range n.V {
+			bv := bz.Add(v[0], v[1])
+			if i%2 == 1 {
+				bv.Mid()
+			}
+		}
+		bz.Close()
+		s, err = bz.Mesh2D()
 	case "text":
 		f, e := sdf.LoadFont("/repo/files/cmr10.ttf")
 		if e != nil {
